@@ -8,6 +8,8 @@ so that, for a concrete program and state, membership in the domain of the conse
 
 variable {σ : Type}
 
+namespace Conserve
+
 instance callOK.dec (s : KState ℚ σ) (c : Call ℚ σ) : Decidable (callOK s c) := by
   cases c <;> unfold callOK <;> infer_instance
 
@@ -78,3 +80,5 @@ instance (body : σ → Resume → Burst ℚ σ) (fuel : Nat) (s : KState ℚ σ
   split
   · exact isTrue trivial
   · split <;> infer_instance
+
+end Conserve
